@@ -698,8 +698,11 @@ def v3(e: Engine, rep: Report):
         def pol(builder, call, target, frame):
             # helpers of the module the error mapping was moved into; the
             # parsers themselves are the raising events
+            # (a helper that has the arms itself is one, whatever its name)
             return target.func.module.name == MOD and \
-                not is_parser(target.func.name) and \
+                (not is_parser(target.func.name) or any(
+                    isinstance(x, ast.Try) and x.handlers
+                    for x in walk_own(target.func.node))) and \
                 target.func.name != 'handle'
 
         def raises(b, n, r):
